@@ -141,9 +141,10 @@ func TestVerifN2HCorr(t *testing.T) {
 			stub.mu.Lock()
 			stub.seen = nil
 			var respStr []string
+			stallMsg := r.Intn(40) == 0 // a stalled message stalls at every address: the outcome cannot depend on load
 			for i := 0; i < naddr; i++ {
 				st := codes[r.Intn(len(codes))]
-				if r.Intn(40) == 0 && stalls == 0 {
+				if stallMsg {
 					st = "stall"
 					stalls++
 				}
@@ -155,6 +156,11 @@ func TestVerifN2HCorr(t *testing.T) {
 				}
 			}
 			stub.mu.Unlock()
+			// generous timeout unless this message is meant to time out
+			httpclient = &http.Client{Timeout: 20 * time.Second}
+			if stallMsg {
+				httpclient = &http.Client{Timeout: 100 * time.Millisecond}
+			}
 			seed := int64(r.Next() >> 1)
 			rand.Seed(seed)
 			draw := rand.Float64()
